@@ -88,10 +88,12 @@ def _has_unknown_violation(out_path, prop) -> bool:
   return False
 
 
-def run_shard(prop, tier, seed, env, cases, repo, timeout, workdir, idx):
+def run_shard(prop, tier, seed, env, cases, repo, timeout, workdir, idx, attempt=0):
   shard_path = os.path.join(workdir, f'shard-{idx}.json')
   out_path = os.path.join(workdir, f'out-{idx}.json')
   log_path = os.path.join(workdir, f'log-{idx}.txt')
+  if os.path.exists(out_path):
+    os.remove(out_path)
   with open(shard_path, 'w') as f:
     json.dump({'prop': prop, 'tier': tier, 'seed': seed, 'env': env, 'cases': cases,
                'repo': repo}, f)
@@ -140,8 +142,16 @@ def run_shard(prop, tier, seed, env, cases, repo, timeout, workdir, idx):
       tail = f.read()[-1500:]
   except Exception:  # pylint: disable=broad-except
     pass
-  return {'idx': idx, 'env': env, 'status': status, 'result': res, 'wall': time.time() - t0,
-          'n_cases': len(cases), 'log_tail': tail}
+  out = {'idx': idx, 'env': env, 'status': status, 'result': res, 'wall': time.time() - t0,
+         'n_cases': len(cases), 'log_tail': tail, 'attempt': attempt}
+  crashed = (status.startswith('exit') and (res is None or res.get('status') not in ('done', 'wrong_repo')))
+  if crashed and attempt == 0 and not _STOP.is_set():
+    # a worker that died without a Python-level verdict (native abort inside jaxlib/XLA, OOM kill):
+    # infrastructure, not the repository; run the shard once more before calling it inconclusive
+    again = run_shard(prop, tier, seed, env, cases, repo, timeout, workdir, idx, attempt=1)
+    again['first_attempt'] = {'status': status, 'log_tail': tail[-300:]}
+    return again
+  return out
 
 
 def write_json(path, obj):
@@ -282,7 +292,9 @@ def check(prop: str, tier: str, seed: int, only_cases: list[dict] | None = None,
         'cases_generated': len(cases),
         'cases_executed': cases_done,
         'shards': [{'env': o['env'], 'cases': o['n_cases'], 'status': o['status'],
-                    'wall_s': round(o['wall'], 1)} for o in outs],
+                    'wall_s': round(o['wall'], 1),
+                    **({'retried_after': o['first_attempt']['status']} if o.get('first_attempt') else {})}
+                   for o in outs],
         'observed': {
             'monitors': {k: {'evaluations': m['n'], 'failures': m['fail'],
                              'worst_margin_residual_over_threshold': _r(m['worst_margin']),
